@@ -295,6 +295,24 @@ Definition grpc_gate (cfgpw : str) (md : option (list str)) : auth_outcome :=
 Definition grpc_password_ok (cfgpw : str) (md : option (list str)) : bool :=
   match grpc_gate cfgpw md with AuthAccept => true | _ => false end.
 
+(** ** The interceptor as a gate in front of a method's handler. grpc.UnaryInterceptor wraps
+    EVERY unary method of the service with the same function (the harness reads the service
+    descriptor of the tree: four unary methods, no streams), so the handler, the request and
+    the response types are parameters: the statements hold for whichever method is called. A
+    rejection returns [(nil, status.Errorf(Unauthenticated, ...))]: no response message, the
+    handler [h] is not called, hence the server state is what it was. *)
+Section GrpcGate.
+  Context {state req resp : Type}.
+  Variable handler : req -> state -> state * resp.
+
+  Definition grpc_serve (cfgpw : str) (md : option (list str)) (r : req) (st : state)
+    : state * (auth_outcome + resp) :=
+    match grpc_gate cfgpw md with
+    | AuthAccept => let '(st', x) := handler r st in (st', inr x)
+    | o => (st, inl o)
+    end.
+End GrpcGate.
+
 (* ------------------------------------------------------------------------- *)
 (** * TLS: GetTLSConfig (security.go:38-84)                                     *)
 
